@@ -16,6 +16,7 @@ import (
 
 	"verif/internal/jsonx"
 
+	"verif/internal/batch"
 	"verif/internal/docgen"
 	"verif/internal/model"
 	"verif/internal/sem"
@@ -79,6 +80,9 @@ func runSem(ctx *Ctx, sp *semSpec) (*Outcome, error) {
 			c := sp.extra(ctx, i, sg.NewRng(ctx.Seed, fmt.Sprintf("%s-strata-%d", sp.id, i)))
 			if c == nil {
 				break
+			}
+			if c == skipCase {
+				continue
 			}
 			cases = append(cases, c)
 		}
@@ -214,7 +218,10 @@ func init() {
 			if i < 28 {
 				return patternPropsCase(i - 20)
 			}
-			return twin(ctx, i-28, r)
+			if i < 34 {
+				return nullableBranchCase(i - 28)
+			}
+			return twin(ctx, i-34, r)
 		},
 		opts:    sg.Opts{MaxDepth: 3, PNullable: 0.3, PAddProps: 0.35, NullType: true, RootKinds: true, AddPropsTrue: true, W: map[string]float64{"map": 2.5}},
 		classes: docgen.Classes{"type": true, "nullok": true, "nullreq": true, "addkey": true},
@@ -234,6 +241,9 @@ func init() {
 		extra: func(ctx *Ctx, i int, r *sg.Rng) *sem.Case {
 			if i < 12 {
 				return stringOverlapCase(i)
+			}
+			if i < 32 {
+				return crossPackageCase(i - 12)
 			}
 			return nil
 		},
@@ -264,6 +274,13 @@ func init() {
 			if i < 8 {
 				return bothDefsKeywordsCase(i)
 			}
+			if i < 136 {
+				// every combination of kinds with an enum among the contenders for one type name
+				if c := collisionKindsCase(i - 8); strings.ContainsAny(c.Sig[len("collision-kinds/"):], "01") {
+					return c
+				}
+				return skipCase
+			}
 			return nil
 		},
 		opts:    sg.Opts{MaxDepth: 2, RootKinds: true, W: map[string]float64{"enum": 10, "array": 2, "ref": 2}, PDefault: 0.4},
@@ -288,7 +305,10 @@ func init() {
 			if i < 62 {
 				return untypedDefaultCase(i - 56)
 			}
-			return sameNameTwinCase(ctx, i-62, r)
+			if i < 74 {
+				return objectDefaultCase(i - 62)
+			}
+			return sameNameTwinCase(ctx, i-74, r)
 		},
 		values: true, defaults: true,
 		nQuick: 400, nThor: 6000, valid: 3, perSite: 3, maxDocs: 120, minDec: 2000,
@@ -909,7 +929,7 @@ func formatCase(i int) *sem.Case {
 // defaultLiteralCensus (C09, last sentence of the statement): a program that does not type-check because of a default
 // literal ("cannot use ... in assignment", composite literal problems) is a violation unless the schema carries a
 // default the recorded finding default-ill-typed speaks about.
-var reDefaultLiteral = regexp.MustCompile(`cannot use .* (as .* value )?in assignment|cannot use .* as .* value in (struct|slice|array|map) literal|invalid composite literal|missing type in composite literal`)
+var reDefaultLiteral = regexp.MustCompile(`cannot use .* (as .* value )?in assignment|cannot use .* as .* value in (struct|slice|array|map) literal|invalid composite literal|missing type in composite literal|duplicate field name .* in struct literal|unknown field .* in struct literal`)
 
 func defaultLiteralCensus(ctx *Ctx) (func(cases []*sem.Case), func(o *Outcome)) {
 	checked, explained := 0, 0
@@ -1449,6 +1469,255 @@ func patternPropsCase(i int) *sem.Case {
 			continue
 		}
 		c.Docs = append(c.Docs, docgen.Doc{V: wrap(jsonx.Obj{{K: "name", V: "n"}, {K: "count", V: w}}), Class: "typefault", Label: "additional-key-wrong-type"})
+	}
+	return c
+}
+
+// nullableBranchCase: anyOf / allOf whose members are nullable objects spelled ["object","null"] (or null first), as
+// the items of a named array, of an inline array and as a property: elements are type-checked against the members.
+func nullableBranchCase(i int) *sem.Case {
+	tl := []string{"object", "null"}
+	if i%2 == 1 {
+		tl = []string{"null", "object"}
+	}
+	b0 := &sg.Schema{Types: tl, Props: []sg.Prop{{Name: "run", S: &sg.Schema{Types: []string{"string"}}}}, Required: []string{"run"}}
+	b1 := &sg.Schema{Types: tl, Props: []sg.Prop{{Name: "uses", S: &sg.Schema{Types: []string{"string"}}}, {Name: "retries", S: &sg.Schema{Types: []string{"integer"}}}}, Required: []string{"uses"}}
+	comp := &sg.Schema{AnyOf: []*sg.Schema{b0, b1}}
+	root := &sg.Schema{Types: []string{"object"}}
+	switch (i / 2) % 3 {
+	case 0:
+		steps := &sg.Schema{Types: []string{"array"}, Items: comp}
+		root.Defs = []sg.Prop{{Name: "Steps", S: steps}}
+		root.Props = []sg.Prop{{Name: "steps", S: &sg.Schema{Ref: "#/$defs/Steps", Target: steps}}}
+	case 1:
+		root.Props = []sg.Prop{{Name: "steps", S: &sg.Schema{Types: []string{"array"}, Items: comp}}}
+	case 2:
+		m := &sg.Schema{Types: []string{"object"}, AddProps: comp}
+		root.Defs = []sg.Prop{{Name: "StepMap", S: m}}
+		root.Props = []sg.Prop{{Name: "steps", S: &sg.Schema{Ref: "#/$defs/StepMap", Target: m}}}
+	}
+	c := &sem.Case{Root: root, Sig: fmt.Sprintf("nullable-branch/%d", i%6), NoAuto: true}
+	wrap := func(el any) any {
+		if (i/2)%3 == 2 {
+			return jsonx.Obj{{K: "steps", V: jsonx.Obj{{K: "k", V: el}}}}
+		}
+		return jsonx.Obj{{K: "steps", V: []any{el}}}
+	}
+	for _, el := range []any{jsonx.Obj{{K: "run", V: "make"}}, jsonx.Obj{{K: "uses", V: "checkout"}, {K: "retries", V: jsonx.N(2)}}, jsonx.N(5), "make", true, []any{}, jsonx.Obj{{K: "run", V: jsonx.N(7)}},
+		jsonx.Obj{{K: "uses", V: "checkout"}, {K: "retries", V: "twice"}}, jsonx.Obj{{K: "uses", V: "checkout"}, {K: "retries", V: jsonx.Num("1.5")}}, jsonx.Obj{}} {
+		c.Docs = append(c.Docs, docgen.Doc{V: wrap(el), Class: "typefault", Label: "element"})
+	}
+	return c
+}
+
+// objectDefaultCase: an inline object property with an object default that names every key, among them keys that
+// differ in letter case only (hostName / hostname): each default value lands in the field of its own key.
+func objectDefaultCase(i int) *sem.Case {
+	keys := [][]string{{"hostName", "hostname", "port"}, {"URL", "url", "n"}, {"userId", "userid", "user_id"}}[i%3]
+	obj := &sg.Schema{Types: []string{"object"}}
+	dv := jsonx.Obj{}
+	other := jsonx.Obj{}
+	for k, n := range keys {
+		if n == "port" || n == "n" {
+			obj.Props = append(obj.Props, sg.Prop{Name: n, S: &sg.Schema{Types: []string{"integer"}}})
+			dv = append(dv, jsonx.KV{K: n, V: jsonx.N(int64(8080 + k))})
+			other = append(other, jsonx.KV{K: n, V: jsonx.N(1)})
+		} else {
+			obj.Props = append(obj.Props, sg.Prop{Name: n, S: &sg.Schema{Types: []string{"string"}}})
+			dv = append(dv, jsonx.KV{K: n, V: fmt.Sprintf("default-of-%s", n)})
+			other = append(other, jsonx.KV{K: n, V: "given-" + n})
+		}
+		obj.Required = append(obj.Required, n)
+	}
+	switch (i / 3) % 4 {
+	case 1:
+		// the default lists its keys in another order
+		dv = append(dv[1:], dv[0])
+	case 2:
+		// only the later-sorted spelling and the last key
+		dv = dv[1:]
+	case 3:
+		// only the earlier-sorted spelling
+		dv = dv[:1]
+	}
+	if len(dv) < len(keys) {
+		// keys the default does not mention are optional with a default of their own (a value field, omitted when
+		// zero), so that the default stays valid for its schema
+		obj.Required = nil
+		for _, p := range obj.Props {
+			named := false
+			for _, kv := range dv {
+				named = named || kv.K == p.Name
+			}
+			if named {
+				obj.Required = append(obj.Required, p.Name)
+			} else if p.S.Types[0] == "string" {
+				p.S.Default, p.S.HasDefault = "own-"+p.Name, true
+			} else {
+				p.S.Default, p.S.HasDefault = jsonx.N(7), true
+			}
+		}
+	}
+	obj.Default, obj.HasDefault = dv, true
+	root := &sg.Schema{Types: []string{"object"}, Props: []sg.Prop{{Name: "server", S: obj}, {Name: "tag", S: &sg.Schema{Types: []string{"string"}}}}}
+	c := &sem.Case{Root: root, Sig: fmt.Sprintf("object-default/%d", i%12), NoAuto: true}
+	c.Docs = append(c.Docs, docgen.Doc{V: jsonx.Obj{}, Class: "default", Label: "absent"}, docgen.Doc{V: jsonx.Obj{{K: "server", V: nil}}, Class: "default", Label: "null"},
+		docgen.Doc{V: jsonx.Obj{{K: "server", V: other}}, Class: "default", Label: "present"}, docgen.Doc{V: jsonx.Obj{{K: "tag", V: "t"}}, Class: "default", Label: "absent-with-sibling"})
+	return c
+}
+
+// skipCase is returned by an extra-strata function for an index it leaves out.
+var skipCase = &sem.Case{}
+
+// collisionKindsCase: three names that normalise to one Go identifier, the contenders being of every combination of
+// kinds (string enum, fractional number enum with equal integer parts, object, constrained string): each key keeps
+// its own schema whatever was declared under the shared name before it.
+func collisionKindsCase(i int) *sem.Case {
+	kinds := [3]int{i % 4, (i / 4) % 4, (i / 16) % 4}
+	names := [][3]string{{"Kind", "kind", "kind_"}, {"net-addr", "net.addr", "net_addr"}, {"my item", "my-item", "myItem"}}[(i/64+i)%3]
+	nested := (i/64)%2 == 1
+	fr := [3][]string{{"0.25", "0.5"}, {"0.75", "0.125"}, {"0.375", "0.625"}}
+	root := &sg.Schema{Types: []string{"object"}}
+	c := &sem.Case{Root: root, Sig: fmt.Sprintf("collision-kinds/%d%d%d", kinds[0], kinds[1], kinds[2]), NoAuto: true}
+	all, bad := jsonx.Obj{}, jsonx.Obj{}
+	for k := 0; k < 3; k++ {
+		var d *sg.Schema
+		var good, wrong any
+		switch kinds[k] {
+		case 0:
+			d = &sg.Schema{Types: []string{"string"}, HasEnum: true, Enum: []any{fmt.Sprintf("a%d", k), fmt.Sprintf("b%d", k)}}
+			good, wrong = fmt.Sprintf("b%d", k), fmt.Sprintf("b%d", (k+1)%3)
+		case 1:
+			d = &sg.Schema{Types: []string{"number"}, HasEnum: true, Enum: []any{jsonx.Num(fr[k][0]), jsonx.Num(fr[k][1])}}
+			good, wrong = jsonx.Num(fr[k][1]), jsonx.Num(fr[(k+1)%3][1])
+		case 2:
+			if k%2 == 0 {
+				d = &sg.Schema{Types: []string{"object"}, Props: []sg.Prop{{Name: "host", S: &sg.Schema{Types: []string{"string"}, MinLen: 1}}}, Required: []string{"host"}}
+				good, wrong = jsonx.Obj{{K: "host", V: "h"}}, jsonx.Obj{{K: "port", V: jsonx.N(2)}}
+			} else {
+				d = &sg.Schema{Types: []string{"object"}, Props: []sg.Prop{{Name: "port", S: &sg.Schema{Types: []string{"integer"}, Min: sg.Fp(1)}}}, Required: []string{"port"}}
+				good, wrong = jsonx.Obj{{K: "port", V: jsonx.N(2)}}, jsonx.Obj{{K: "host", V: "h"}}
+			}
+		default:
+			d = &sg.Schema{Types: []string{"string"}, MinLen: k + 2}
+			good, wrong = "xxxxx", "x"
+		}
+		key := fmt.Sprintf("p%d", k)
+		if nested {
+			// inline: the types are named after the property, <Root><Name>
+			root.Props = append(root.Props, sg.Prop{Name: names[k], S: &sg.Schema{Types: []string{"object"}, Props: []sg.Prop{{Name: "v", S: d}}}})
+			key = names[k]
+			good, wrong = jsonx.Obj{{K: "v", V: good}}, jsonx.Obj{{K: "v", V: wrong}}
+		} else {
+			root.Defs = append(root.Defs, sg.Prop{Name: names[k], S: d})
+			root.Props = append(root.Props, sg.Prop{Name: key, S: &sg.Schema{Ref: "#/$defs/" + names[k], Target: d}})
+		}
+		all = append(all, jsonx.KV{K: key, V: good})
+		bad = append(bad, jsonx.KV{K: key, V: wrong})
+		c.Docs = append(c.Docs, docgen.Doc{V: jsonx.Obj{{K: key, V: good}}, Class: "collision", Label: "own-schema"}, docgen.Doc{V: jsonx.Obj{{K: key, V: wrong}}, Class: "collision", Label: "other-schema"})
+	}
+	c.Docs = append(c.Docs, docgen.Doc{V: all, Class: "collision", Label: "all-own"}, docgen.Doc{V: bad, Class: "collision", Label: "all-other"})
+	return c
+}
+
+// crossPackageCase: a root schema and a library schema, the library's definitions (bounded number, constrained
+// string, object with required members, enum, limited array) each referenced several times from the root, the root
+// carrying definitions of the SAME names with other constraints; generated into one package or - same run - into
+// separate Go packages (--schema-package / --schema-output), the library reached through $ref only or also given on
+// the command line, before or after the root. Every document is judged by the reference model through the whole
+// multi-package program: what a definition enforces does not depend on the package it lands in, on how often it
+// is referenced or on a same-named type elsewhere.
+func crossPackageCase(i int) *sem.Case {
+	numv, layout := i%4, (i/4)%5
+	qty := func(local bool) *sg.Schema {
+		off := 0.0
+		if local {
+			off = 100
+		}
+		switch numv {
+		case 0:
+			return &sg.Schema{Types: []string{"integer"}, Min: sg.Fp(1 + off), Max: sg.Fp(10 + off)}
+		case 1:
+			return &sg.Schema{Types: []string{"number"}, ExMin: 0.5 + off, ExMax: 9.5 + off}
+		case 2:
+			return &sg.Schema{Types: []string{"integer"}, MultipleOf: sg.Fp(3 + off/50), Max: sg.Fp(300)}
+		}
+		return &sg.Schema{Types: []string{"number"}, Min: sg.Fp(0.25 + off), Max: sg.Fp(7.75 + off)}
+	}
+	code := func(local bool) *sg.Schema {
+		if local {
+			return &sg.Schema{Types: []string{"string"}, MinLen: 5, MaxLen: 8, Pattern: "^[0-9]+$"}
+		}
+		return &sg.Schema{Types: []string{"string"}, MinLen: 2, MaxLen: 4, Pattern: "^[a-z]+$"}
+	}
+	item := func(local bool) *sg.Schema {
+		if local {
+			return &sg.Schema{Types: []string{"object"}, Props: []sg.Prop{{Name: "sku", S: &sg.Schema{Types: []string{"string"}, MaxLen: 2}}, {Name: "tag", S: &sg.Schema{Types: []string{"string", "null"}, Pattern: "^t"}}}, Required: []string{"sku"}}
+		}
+		return &sg.Schema{Types: []string{"object"}, Props: []sg.Prop{{Name: "sku", S: &sg.Schema{Types: []string{"string"}, MinLen: 3}}, {Name: "count", S: &sg.Schema{Types: []string{"integer"}, Min: sg.Fp(0)}}}, Required: []string{"sku", "count"}}
+	}
+	level := func(local bool) *sg.Schema {
+		if local {
+			return &sg.Schema{Types: []string{"string"}, HasEnum: true, Enum: []any{"on", "off"}}
+		}
+		return &sg.Schema{Types: []string{"string"}, HasEnum: true, Enum: []any{"low", "high"}}
+	}
+	list := func(local bool) *sg.Schema {
+		if local {
+			return &sg.Schema{Types: []string{"array"}, Items: &sg.Schema{Types: []string{"string"}}, MinItems: 2}
+		}
+		return &sg.Schema{Types: []string{"array"}, Items: &sg.Schema{Types: []string{"integer"}}, MaxItems: 2}
+	}
+	const libID, rootID = "https://example.com/x/lib", "https://example.com/x/root"
+	lib := &sg.Schema{ID: libID, Types: []string{"object"}}
+	root := &sg.Schema{ID: rootID, Types: []string{"object"}}
+	type def struct {
+		name string
+		mk   func(bool) *sg.Schema
+	}
+	for _, d := range []def{{"Qty", qty}, {"Code", code}, {"Item", item}, {"Level", level}, {"List", list}} {
+		ls, own := d.mk(false), d.mk(true)
+		lib.Defs = append(lib.Defs, sg.Prop{Name: d.name, S: ls})
+		root.Defs = append(root.Defs, sg.Prop{Name: d.name, S: own})
+		lo := strings.ToLower(d.name)
+		lib.Props = append(lib.Props, sg.Prop{Name: lo, S: &sg.Schema{Ref: "#/$defs/" + d.name, Target: ls}})
+		for k := 1; k <= 3; k++ {
+			root.Props = append(root.Props, sg.Prop{Name: fmt.Sprintf("%s%d", lo, k), S: &sg.Schema{Ref: "lib.json#/$defs/" + d.name, Target: ls}})
+		}
+		root.Props = append(root.Props, sg.Prop{Name: "own" + d.name, S: &sg.Schema{Ref: "#/$defs/" + d.name, Target: own}})
+	}
+	// (first 20 indices) one pattern-carrying definition per file under a name of its own: both packages keep using
+	// regexp whatever happens to the same-named ones; from index 20 on the same-named ones are the only users
+	slug := &sg.Schema{Types: []string{"string"}, Pattern: "^[a-z-]+$", MaxLen: 12}
+	pin := &sg.Schema{Types: []string{"string"}, Pattern: "^[0-9]+$", MinLen: 4}
+	if (i/20)%2 == 0 {
+		lib.Defs = append(lib.Defs, sg.Prop{Name: "Slug", S: slug})
+		lib.Props = append(lib.Props, sg.Prop{Name: "slug", S: &sg.Schema{Ref: "#/$defs/Slug", Target: slug}})
+		root.Defs = append(root.Defs, sg.Prop{Name: "Pin", S: pin})
+		root.Props = append(root.Props, sg.Prop{Name: "slug1", S: &sg.Schema{Ref: "lib.json#/$defs/Slug", Target: slug}}, sg.Prop{Name: "ownPin", S: &sg.Schema{Ref: "#/$defs/Pin", Target: pin}})
+	}
+	root.Props = append(root.Props, sg.Prop{Name: "qtys", S: &sg.Schema{Types: []string{"array"}, Items: &sg.Schema{Ref: "lib.json#/$defs/Qty", Target: lib.Defs[0].S}}})
+	libFile := batch.File{Path: "lib.json", Data: jsonx.MarshalIndent(lib.ToJSON())}
+	split := []string{"--schema-package=" + libID + "={{PKG}}/lib", "--schema-output=" + libID + "={{OUT}}/lib/gen.go"}
+	c := &sem.Case{Root: root, Sig: fmt.Sprintf("cross-package/%d/%d", layout, numv)}
+	switch layout {
+	case 0:
+		// one package, library reached through $ref
+		c.Extra = []batch.File{libFile}
+	case 1:
+		// library in a package of its own, reached through $ref
+		c.Extra, c.Args, c.SubPkgs = []batch.File{libFile}, split, []string{"lib"}
+	case 2:
+		// ... and also given on the command line after the root
+		c.Args, c.SubPkgs = split, []string{"lib"}
+		c.Group = []*sem.Case{{Root: lib, RootFile: "lib.json", RootType: "lib/LibJson", Sig: c.Sig + "/lib"}}
+	case 3:
+		// ... given before the root
+		c = &sem.Case{Root: lib, RootFile: "lib.json", RootType: "lib/LibJson", Sig: c.Sig + "/lib", Args: split, SubPkgs: []string{"lib"},
+			Group: []*sem.Case{{Root: root, RootFile: "root.json", Sig: c.Sig}}}
+	case 4:
+		// both on the command line, one package
+		c.Group = []*sem.Case{{Root: lib, RootFile: "lib.json", Sig: c.Sig + "/lib"}}
 	}
 	return c
 }
